@@ -22,7 +22,7 @@ func init() {
 				"field (Node/Expression/pointer-to-node/slices thereof/block parameters' expressions, incl. promoted fields and the unexported catch node's children) " +
 				"to the visitor from exactly one call site that is unconditional, nil-guarded or inside a range over the slice; (C20.nil) a child field that package jet " +
 				"itself believes nullable (compared with nil, or initialised from a nil argument/zero-valued local at a constructor call) is only visited under a " +
-				"`!= nil` guard and never dereferenced unguarded; (C20.term) no helper hands the node it was called for back to the visitor; (C20.walk) Walk starts at t.Root. (C20.cases, continued) the parser's marker nodes (end, else, content, catch) are excluded on every path on which a parsed text-or-action node is appended to a list. (C20.walk, continued) every return of Walk lies behind the visit of t.Root and nothing of package jet looks at the tree first.",
+				"`!= nil` guard and never dereferenced unguarded; (C20.term) no helper hands the node it was called for back to the visitor; (C20.walk) Walk starts at t.Root. (C20.cases, continued) the parser's marker nodes (end, else, content, catch) are excluded on every path on which a parsed text-or-action node is appended to a list. (C20.walk, continued) every return of Walk lies behind the visit of t.Root and nothing of package jet looks at the tree first. (C20.cases, continued) no function of utils/visitor.go other than that default arm can panic explicitly.",
 			NotDecided: "that the parser builds trees only from these constructors is itself checked (node composite literals outside PARSE are reported); nothing else of substance.",
 			Assumptions: []string{
 				"a visitor descends by calling VisitorContext.Visit on the node it was given (the property's premise)",
